@@ -1035,8 +1035,16 @@ def run_config(chk, ctx, name):
     x4_finalize(chk, F, an, tag)
     x7_mac_covers_all_slots(chk, F, an, tag)
     x5_scope(chk, F, an, tag)
-    # X6
     auxfns = set(F.reachable(an.gates + [an.finalize.path] + an.accessors + [an.E.path]))
+    # X8: the MAC key is the hash of the prefix and the *whole* seed, the MAC is the keyed-hash construction over the level
+    # word and the cached levels (reference preimages DAUX / HMAC-* / AUX-MAC of the HL engine, closed world over the aux
+    # routines): a key that ignores part of the seed would authenticate another key's buffer
+    from . import hlref
+    S_, sessions = hlref.analyse_sessions(F)
+    mine = [x for x in sessions if x[0].path in auxfns]
+    hlref.closed_world(chk, F, mine, tag, "X8")
+    hlref.presence(chk, mine, {"DAUX": 1, "HMAC-IPAD": 1, "HMAC-OPAD": 1, "AUX-MAC": 1}, tag, "X8")
+    # X6
     entries = A.entries_keygen() + A.entries_sign()
     pf.run(chk, F, A, entries, "aux:" + name, allow_recursion=("lms::helper::get_tree_element",), tag=tag, only_fns=auxfns)
 
@@ -1045,7 +1053,7 @@ def run(chk, ctx):
     chk.explanation = __doc__.split("Decided", 1)[1].split("Not decided")[0].strip()
     chk.not_decided = "that a cached node equals the recomputed node (equality of outputs with and without aux data over runtime values); timing of the MAC comparison"
     chk.trusted_base = ["rustc MIR construction", "subtle::ConstantTimeEq / slice equality compare whole slices of equal length", "core::slice::fill writes every element",
-                        "HMAC construction itself (hash-preimage layout is C08's concern)"]
+                        "reference preimages of the MAC key and the keyed hash as transcribed in rules/hlref.py"]
     configs = ["default"] if ctx.tier == "quick" else ["default", "std", "fast_verify"]
     for name in configs:
         run_config(chk, ctx, name)
